@@ -629,3 +629,143 @@ Proof.
       * exists []. auto.
   - cbn. auto.
 Qed.
+
+Ltac proj_cbn_in H :=
+  cbn [sh_kind sh_handler sh_start sh_init_expected sh_close_expected sh_stop sh_todo sh_rpc sh_jobs
+       sh_njobs sh_workers sh_shutdown sh_outq sh_wpc sh_apc sh_sock_closed sh_exited sh_hist
+       set_hist slog set_reader set_rpc set_pool set_out set_misc put submit set_worker] in H.
+
+Theorem close_sequence_reader : forall s s1 s2 s3 s4,
+  sh_rpc s = RCl1 ->
+  step s ThReader (APut OStopPill) = Some s1 -> step s1 ThReader AJoin = Some s2 ->
+  step s2 ThReader AShutdownWait = Some s3 -> step s3 ThReader ASockClose = Some s4 ->
+  sh_rpc s1 = RCl2 /\ writer_dead s1 = true /\ sh_shutdown s2 = true /\ pool_drained s2 = true /\ sh_sock_closed s4 = true.
+Proof.
+  intros s s1 s2 s3 s4 Hr H1 H2 H3 H4.
+  unfold step in H1. destruct (sh_exited s) eqn:Hex; [discriminate H1|]. rewrite Hr in H1.
+  injection H1 as <-.
+  unfold step in H2. proj_cbn_in H2. rewrite Hex in H2.
+  match type of H2 with (if ?b then _ else _) = _ => destruct b eqn:Hwd; [|discriminate H2] end.
+  injection H2 as <-.
+  unfold step in H3. proj_cbn_in H3. rewrite Hex in H3.
+  match type of H3 with (if ?b then _ else _) = _ => destruct b eqn:Hpd; [|discriminate H3] end.
+  injection H3 as <-.
+  unfold step in H4. proj_cbn_in H4. rewrite Hex in H4. injection H4 as <-.
+  repeat split; try assumption; try reflexivity.
+  rewrite (st_closed _ _ (settle_sett _ _)). reflexivity.
+Qed.
+
+Theorem join_waits_for_writer : forall s, sh_exited s = false -> sh_rpc s = RCl2 ->
+  (step s ThReader AJoin <> None <-> writer_dead s = true).
+Proof.
+  intros s Hex Hr. unfold step. rewrite Hex, Hr.
+  destruct (writer_dead s); split; intros H; try reflexivity; try discriminate.
+  exfalso; apply H; reflexivity.
+Qed.
+
+Theorem shutdown_waits_for_pool : forall s, sh_exited s = false -> sh_rpc s = RCl3 ->
+  (step s ThReader AShutdownWait <> None <-> pool_drained s = true).
+Proof.
+  intros s Hex Hr. unfold step. rewrite Hex, Hr.
+  destruct (pool_drained s); split; intros H; try reflexivity; try discriminate.
+  exfalso; apply H; reflexivity.
+Qed.
+
+Theorem read_fault_reported : forall s a s',
+  sh_exited s = false -> sh_rpc s = RRecv -> (a = ARecvEof \/ a = ARecvErr) -> sh_sock_closed s = false ->
+  step s ThReader a = Some s' ->
+  if sh_stop s then sh_hist s' = sh_hist s ++ [EReaderEnd] /\ sh_exited s' = false
+  else match sh_handler s with
+       | HNone => sh_hist s' = sh_hist s ++ [EHandIO ThReader; EExit] /\ sh_exited s' = true
+       | HRet _ _ => sh_hist s' = sh_hist s /\ sh_rpc s' = RIoHand
+       end.
+Proof.
+  intros s a s' Hex Hr Ha Hc H.
+  destruct Ha; subst a; unfold step, io_fail in H; rewrite Hex, Hr, Hc in H; cbn [negb] in H;
+    (destruct (sh_stop s);
+     [injection H as <-; cbn; auto
+     |destruct (sh_handler s); injection H as <-; cbn; rewrite <- ?app_assoc; auto]).
+Qed.
+
+Theorem own_close_read_silent : forall s s',
+  sh_exited s = false -> sh_rpc s = RRecv -> sh_sock_closed s = true -> sh_stop s = true ->
+  step s ThReader ARecvClosed = Some s' -> sh_hist s' = sh_hist s ++ [EReaderEnd] /\ sh_exited s' = false.
+Proof.
+  intros s s' Hex Hr Hc Hst H.
+  unfold step in H. rewrite Hex, Hr, Hc, Hst in H. cbn [negb] in H. injection H as <-. cbn. auto.
+Qed.
+
+Theorem io_handler_decides_reader : forall s ret s' ex io,
+  sh_exited s = false -> sh_rpc s = RIoHand -> sh_handler s = HRet ex io ->
+  step s ThReader (AHandIO ret) = Some s' ->
+  ret = io /\ sh_exited s' = ret /\ sh_rpc s' = RDead /\
+  sh_hist s' = sh_hist s ++ (if ret then [EHandIO ThReader; EExit] else [EHandIO ThReader; EReaderEnd]).
+Proof.
+  intros s ret s' ex io Hex Hr Hh H.
+  unfold step in H. rewrite Hex, Hr, Hh in H.
+  destruct ret, io; cbn in H; try discriminate H; injection H as <-; cbn; auto.
+Qed.
+
+Theorem write_fault_reported : forall s l s',
+  sh_exited s = false -> sh_wpc s = WHand l -> step s ThWriter (ASend false) = Some s' ->
+  match sh_handler s with
+  | HNone => sh_hist s' = sh_hist s ++ [EHandIO ThWriter; EExit] /\ sh_exited s' = true /\ sh_wpc s' = WDead
+  | HRet _ _ => sh_hist s' = sh_hist s /\ sh_wpc s' = WIoHand
+  end.
+Proof.
+  intros s l s' Hex Hw H.
+  unfold step, io_fail in H. rewrite Hex, Hw in H.
+  destruct (sh_handler s); injection H as <-; cbn; rewrite <- ?app_assoc; auto.
+Qed.
+
+Theorem io_handler_decides_writer : forall s ret s' ex io,
+  sh_exited s = false -> sh_wpc s = WIoHand -> sh_handler s = HRet ex io ->
+  step s ThWriter (AHandIO ret) = Some s' ->
+  ret = io /\ sh_exited s' = ret /\ sh_wpc s' = WDead.
+Proof.
+  intros s ret s' ex io Hex Hw Hh H.
+  unfold step in H. rewrite Hex, Hw, Hh in H.
+  destruct ret, io; cbn in H; try discriminate H; injection H as <-; cbn; auto.
+Qed.
+
+Theorem reclose_possible : forall s,
+  sh_exited s = false -> sh_apc s = ADone -> (3 <= sh_start s)%nat -> inv_closed s = true -> sh_sock_closed s = true ->
+  exists s5, run s [(ThApp, AStart); (ThApp, APut OStopPill); (ThApp, AJoin); (ThApp, AShutdownWait); (ThApp, ASockClose)] = Some s5 /\
+             sh_apc s5 = ADone /\ sh_exited s5 = false.
+Proof.
+  intros s Hex Hapc Hle Hic Hc.
+  unfold inv_closed in Hic. rewrite Hc in Hic. cbn [negb orb] in Hic.
+  apply andb_true_iff in Hic. destruct Hic as [Hic _].
+  apply andb_true_iff in Hic. destruct Hic as [Hwd Hpd].
+  assert (Hw : sh_wpc s = WDead).
+  { unfold writer_dead in Hwd. destruct (sh_wpc s); try discriminate Hwd. reflexivity. }
+  apply pool_drained_iff in Hpd. destruct Hpd as [Hj Hx].
+  apply Nat.leb_le in Hle.
+  eexists. split.
+  - cbn [run].
+    unfold step at 1. rewrite Hex, Hapc, Hle.
+    unfold step at 1. proj_cbn. rewrite Hex.
+    unfold step at 1. proj_cbn. rewrite Hex. unfold writer_dead. proj_cbn. rewrite Hw.
+    unfold step at 1. proj_cbn. rewrite Hex. unfold pool_drained. proj_cbn. fold is_exited.
+    rewrite Hj, Hx. cbn [is_nil andb].
+    unfold step at 1. proj_cbn. rewrite Hex.
+    reflexivity.
+  - split; [reflexivity|]. cbn. exact Hex.
+Qed.
+
+Print Assumptions inv_closed_reachable.
+Print Assumptions exit_ok_reachable.
+Print Assumptions no_fault_no_report.
+Print Assumptions close_honoured.
+Print Assumptions close_ignored.
+Print Assumptions close_bad_id.
+Print Assumptions close_sequence_reader.
+Print Assumptions join_waits_for_writer.
+Print Assumptions shutdown_waits_for_pool.
+Print Assumptions writer_drains_before_pill.
+Print Assumptions read_fault_reported.
+Print Assumptions own_close_read_silent.
+Print Assumptions io_handler_decides_reader.
+Print Assumptions write_fault_reported.
+Print Assumptions io_handler_decides_writer.
+Print Assumptions reclose_possible.
